@@ -95,7 +95,8 @@ func respond(tx types.Transaction, status int, rctype, rbody string) {
 	tx.ProcessLogging()
 }
 
-const uriGet = "/p/a.php?k=1&b=x%20zzz&K=2&c[]=%27%22&k=3&v=k#frag"
+// (a truncated escape at the very end of a value and of a name: % followed by one hex digit)
+const uriGet = "/p/a.php?k=1&b=x%20zzz&K=2&c[]=%27%22&k=3&v=k&e%4=1&t=%4#frag"
 
 // a reader that is not a ByteLenger
 type plainReader struct{ r io.Reader }
@@ -107,7 +108,7 @@ var battery = []sequence{
 		exchange(tx, "GET", uriGet, "", "", 200, "text/plain", "hello k zzz")
 	}},
 	{"post-form", func(tx types.Transaction) {
-		exchange(tx, "POST", "/p?k=1", ctForm, "k=1&b=x%20y+zzz&c=%zz&d&k=%00&v=k", 404, "application/json", `{"k":["zzz",1,null]}`)
+		exchange(tx, "POST", "/p?k=1&e%4=1&t=%4", ctForm, "k=1&b=x%20y+zzz&c=%zz&d&k=%00&v=k&%&y=abc%4", 404, "application/json", `{"k":["zzz",1,null]}`)
 	}},
 	{"body-limit-minus-1", func(tx types.Transaction) {
 		exchange(tx, "POST", "/p", ctForm, "k="+rep("A", bodyLimit-3), 200, "text/plain", rep("r", bodyLimit-1))
